@@ -330,6 +330,19 @@ fn stateless(t: &[&str]) -> Option<String> {
             Err(_) => "err".to_string(),
         },
         "LABELPRINT" => text_out(&label_in(t[1]).to_string()),
+        // parse, then print the parsed label
+        "LABELRT" => match Label::from_str(&text_arg(t[1])) {
+            Ok(l) => format!("ok {} {}", label_out(&l), text_out(&l.to_string())),
+            Err(_) => "err".to_string(),
+        },
+        // print, then parse the printed text
+        "LABELRTL" => {
+            let txt = label_in(t[1]).to_string();
+            match Label::from_str(&txt) {
+                Ok(l) => format!("{} ok {}", text_out(&txt), label_out(&l)),
+                Err(_) => format!("{} err", text_out(&txt)),
+            }
+        }
         _ => return None,
     })
 }
